@@ -173,6 +173,52 @@ static void usual_arith_conv(Node **lhs, Node **rhs) {
   *rhs = new_cast(*rhs, ty);
 }
 
+#ifdef CHIBICC_VERIF
+#include "verif_trace.h"
+// H4: typing events of add_type for arithmetic nodes. The operand types are
+// those the operands had before add_type converted them; `t` is the type given
+// to the node. Semantic names only (no addresses, no layout).
+static char *vt_tyname(Type *ty) {
+  if (!ty)
+    return "-";
+  switch (ty->kind) {
+  case TY_BOOL:  return "bool";
+  case TY_CHAR:  return ty->is_unsigned ? "uchar" : "char";
+  case TY_SHORT: return ty->is_unsigned ? "ushort" : "short";
+  case TY_INT:   return ty->is_unsigned ? "uint" : "int";
+  case TY_LONG:  return ty->is_unsigned ? "ulong" : "long";
+  case TY_ENUM:  return "enum";
+  }
+  return "other";
+}
+
+static char *vt_kindname(NodeKind kind) {
+  switch (kind) {
+  case ND_ADD: return "add";       case ND_SUB: return "sub";
+  case ND_MUL: return "mul";       case ND_DIV: return "div";
+  case ND_MOD: return "mod";       case ND_BITAND: return "band";
+  case ND_BITOR: return "bor";     case ND_BITXOR: return "bxor";
+  case ND_NEG: return "neg";       case ND_BITNOT: return "bnot";
+  case ND_SHL: return "shl";       case ND_SHR: return "shr";
+  case ND_EQ: return "eq";         case ND_NE: return "ne";
+  case ND_LT: return "lt";         case ND_LE: return "le";
+  case ND_NOT: return "lnot";      case ND_LOGAND: return "land";
+  case ND_LOGOR: return "lor";     case ND_COND: return "cond";
+  default: return "other";
+  }
+}
+
+#define VT_TYPE(node, l, r)                                                  \
+  do {                                                                       \
+    if (vtrace_on())                                                         \
+      vtrace("\"e\":\"ty\",\"k\":\"%s\",\"l\":\"%s\",\"r\":\"%s\",\"t\":\"%s\"",    \
+             vt_kindname((node)->kind), vt_tyname(l), vt_tyname(r),          \
+             vt_tyname((node)->ty));                                         \
+  } while (0)
+#else
+#define VT_TYPE(node, l, r)
+#endif
+
 void add_type(Node *node) {
   if (!node || node->ty)
     return;
@@ -190,6 +236,15 @@ void add_type(Node *node) {
   for (Node *n = node->args; n; n = n->next)
     add_type(n);
 
+#ifdef CHIBICC_VERIF
+  Type *vt_l = node->lhs ? node->lhs->ty : NULL;
+  Type *vt_r = node->rhs ? node->rhs->ty : NULL;
+  if (node->kind == ND_COND && node->then && node->els) {
+    vt_l = node->then->ty;
+    vt_r = node->els->ty;
+  }
+#endif
+
   switch (node->kind) {
   case ND_NUM:
     node->ty = ty_int;
@@ -204,11 +259,13 @@ void add_type(Node *node) {
   case ND_BITXOR:
     usual_arith_conv(&node->lhs, &node->rhs);
     node->ty = node->lhs->ty;
+    VT_TYPE(node, vt_l, vt_r);
     return;
   case ND_NEG: {
     Type *ty = get_common_type(ty_int, node->lhs->ty);
     node->lhs = new_cast(node->lhs, ty);
     node->ty = ty;
+    VT_TYPE(node, vt_l, vt_r);
     return;
   }
   case ND_ASSIGN:
@@ -224,6 +281,7 @@ void add_type(Node *node) {
   case ND_LE:
     usual_arith_conv(&node->lhs, &node->rhs);
     node->ty = ty_int;
+    VT_TYPE(node, vt_l, vt_r);
     return;
   case ND_FUNCALL:
     node->ty = node->func_ty->return_ty;
@@ -232,6 +290,7 @@ void add_type(Node *node) {
   case ND_LOGOR:
   case ND_LOGAND:
     node->ty = ty_int;
+    VT_TYPE(node, vt_l, vt_r);
     return;
   case ND_BITNOT:
   case ND_SHL:
@@ -241,6 +300,7 @@ void add_type(Node *node) {
     Type *ty = get_common_type(ty_int, node->lhs->ty);
     node->lhs = new_cast(node->lhs, ty);
     node->ty = ty;
+    VT_TYPE(node, vt_l, vt_r);
     return;
   }
   case ND_VAR:
@@ -253,6 +313,7 @@ void add_type(Node *node) {
     } else {
       usual_arith_conv(&node->then, &node->els);
       node->ty = node->then->ty;
+      VT_TYPE(node, vt_l, vt_r);
     }
     return;
   case ND_COMMA:
